@@ -596,6 +596,7 @@ def _run_regress(check_id, mod, tier, known):
 
 
 def replay(check_id, path):
+    os.environ["VERIF_WORKER_STDOUT"] = "1"
     _quiet_env()
     mod = _load_check(check_id)
     with open(path) as f:
